@@ -17,7 +17,9 @@ RULE = ("(a) fluid reference: networks containing PS nodes (sharing capacity 1-3
         "event-driven fluid model in exact rationals (each sharing customer progresses at rate min(1, R/k); at most `capacity` share, "
         "the others wait first-come-first-served; departure when received work == requirement) is driven by the observed arrivals to "
         "the node and the logged requirements and predicts every service start and departure; compared with the records (1e-9).  "
-        "Monitor: sharers <= capacity and every waiting customer arrived after every sharer.  (b) metamorphic: an unlimited PS node "
+        "Monitor: sharers <= capacity and every waiting customer arrived after every sharer.  (a') tie-rich grid inputs (coincident "
+        "arrivals / completions, zero-length jobs, batches): the monitor integrates per customer the work received at rate min(1, R/k) "
+        "over the observed sharing sets; at departure it must equal the logged requirement and nobody stays beyond it.  (b) metamorphic: an unlimited PS node "
         "and a one-server FIFO ciw.Node fed with the same arrivals and per-customer requirements empty at the same instants.  "
         "Non-trivial (a): >= 3 customers overlapping in service at a PS node; distinct by digest.")
 ASSUMPTIONS = ["tie-free inputs (continuous distributions); tolerance 1e-9 relative on predicted dates"]
@@ -104,6 +106,74 @@ class PSMonitor(O.Monitor):
                               "predicted": [None if s_pred is None else float(s_pred), None if e_pred is None else float(e_pred)],
                               "capacity": repr(nd.ps_capacity), "threshold": nd.ps_threshold})
                     break
+
+
+class PSWork(O.Monitor):
+    """Tie-robust oracle: integrates, per customer, the work received at rate min(1, R/k) over the observed sharing sets
+    (k = customers sharing between two events).  A customer leaves exactly when received == requirement."""
+    name = "pswork"
+    P = "C19"
+
+    def __init__(self, spec):
+        self.spec = spec
+
+    def start(self, Q):
+        self.nodes = [nd for nd in Q.transitive_nodes if O.is_ps(nd)]
+        self.k = 0
+        self.req = {}          # (ind id, node, start time) -> requirement
+        self.work = {}         # (id(ind), node) -> [node, start, received, ind]
+        self.prev_t = 0.0
+        self.activity = {"ps_departures_checked": 0, "max_sharing": 0, "ties_at_ps": 0, "capacity_bound_waiting": 0}
+        self.prev_event_t = None
+
+    def after(self, Q, node, etype, nxt):
+        t = Q.current_time
+        log = Q.built.samples
+        while self.k < len(log):
+            tag, ts, ind, v = log[self.k]
+            self.k += 1
+            if tag[0] == "srv":
+                self.req[(ind, tag[1], ts)] = v
+        dt = float(t) - float(self.prev_t)
+        rep = lambda clause, d: Q.report(self.P, "C19." + clause, etype, d)
+        if self.prev_event_t == t and getattr(node, "id_number", 0) in [n.id_number for n in self.nodes]:
+            self.activity["ties_at_ps"] += 1
+        self.prev_event_t = t
+        for nd in self.nodes:
+            nid = nd.id_number
+            R = nd.ps_threshold
+            mine = [w for w in self.work.values() if w[0] == nid]
+            kshare = len(mine)
+            rate = 1.0 if kshare <= R else R / float(kshare)
+            for w in mine:
+                w[2] += dt * rate
+            # who shares now?
+            now_sh = {(id(i), nid): i for i in O.customers(nd) if getattr(i, "with_server", False)}
+            self.activity["max_sharing"] = max(self.activity["max_sharing"], len(now_sh))
+            if len(O.customers(nd)) > len(now_sh):
+                self.activity["capacity_bound_waiting"] += 1
+            for key in [k_ for k_, w in self.work.items() if w[0] == nid]:
+                w = self.work[key]
+                ind = w[3]
+                still = key in now_sh and now_sh[key].service_start_date == w[1]
+                if still:
+                    r = self.req.get((ind.id_number, nid, w[1]))
+                    if r is not None and w[2] > r + 1e-9 * max(1.0, r) + 1e-9:
+                        rep("customer-leaves-when-received-work-equals-requirement", {"node": nid, "customer": ind.id_number, "received": w[2],
+                                                                                       "requirement": r, "still_present_at": O._num(t)})
+                        del self.work[key]
+                    continue
+                r = self.req.get((ind.id_number, nid, w[1]))
+                if r is not None:
+                    self.activity["ps_departures_checked"] += 1
+                    if abs(w[2] - r) > 1e-9 * max(1.0, r) + 1e-9:
+                        rep("received-work-equals-requirement-at-departure", {"node": nid, "customer": ind.id_number, "received": w[2],
+                                                                              "requirement": r, "left_at": O._num(t), "started": O._num(w[1])})
+                del self.work[key]
+            for key, ind in now_sh.items():
+                if key not in self.work:
+                    self.work[key] = [nid, ind.service_start_date, 0.0, ind]
+        self.prev_t = t
 
 
 def fluid(visits, samples, nid, cap, R, tend):
@@ -234,7 +304,15 @@ def subchecks(tier):
          "process_routing": 0.2, "discipline": 0.1}
     prof = S.Profile(ALLOWED, weights=w, required=("ps",), numeric="cont", max_nodes=3, max_classes=3, plans=("max_time",), horizon=(5.0, 14.0),
                      budget=700, resumptions=(1, 1), excluded=())
+    wg = dict(w)
+    wg.update({"zero_service": 0.3, "batching": 0.5})
+    gprof = S.Profile(ALLOWED + ["zero_service"], weights=wg, required=("ps",), numeric="grid", max_nodes=2, max_classes=2, plans=("max_time",),
+                      horizon=(6.0, 16.0), budget=700, resumptions=(1, 1), load="heavy")
     return [
+        system_subcheck("work", gprof, lambda spec: [PSWork(spec)], lambda a, spec, res: a.get("ps_departures_checked", 0) >= 5 and a.get("max_sharing", 0) >= 2,
+                        classes=lambda a, spec, res: [k for k in ("ties_at_ps", "capacity_bound_waiting") if a.get(k)], log=True,
+                        n={"quick": 4800, "thorough": 30000},
+                        rule="tie-rich grid inputs: per-customer integration of received work over observed sharing sets == logged requirement at departure; no overstay"),
         system_subcheck("fluid", prof, lambda spec: [PSMonitor(spec)], nontrivial, classes=classes, log=True,
                         n={"quick": 7200, "thorough": 40000}, rule="records at PS nodes vs exact-rational fluid model; sharing monitor"),
         SubCheck("busy_periods", busy_execute, strategy=busy_case(), n={"quick": 4800, "thorough": 20000}, kind="metamorphic", is_spec=False,
